@@ -47,6 +47,7 @@ func runC09(r *Run, verifDir string) {
 	r.Rule("C09.B4", "each item is executed at most once, in order: single call site in the range loop, no inner loop, no go; one route invocation per execution", 2)
 	r.Rule("C09.B5", "stop flag: set only under failed && Stop, never reset; execution on the !stopped edge; stopped items reported failed", 3)
 	r.Rule("C09.B6", "every non-nil error (typed, plain, recovered panic, unrouted operation, critical extension) becomes status OperationFailed", 2)
+	c09B7(r)
 	if hr == nil {
 		r.Unk("C09.B1", "kmipserver.BatchExecutor.handleRequest", token.NoPos, "anchor missing")
 		return
@@ -1460,5 +1461,93 @@ func c15O5(r *Run) {
 		r.Unk("C15.O5", key, getFn.Pos(), "no return with a holder found")
 	default:
 		r.OK("C15.O5", key, getFn.Pos(), "returns the stored field unchanged")
+	}
+}
+
+// c09B7: the only reasons to reject a request as a whole are the three the property names — an unsupported protocol
+// version, the Undo option, a batch-count mismatch. Every other condition has to be reported on the item it concerns:
+// each error return of handleRequest is dominated by one of those three tests.
+func c09B7(r *Run) {
+	p := r.P
+	r.Rule("C09.B7", "a request is rejected as a whole only for an unsupported version, the Undo option or a batch-count mismatch", 2)
+	hr := p.Func("kmipserver", "BatchExecutor", "handleRequest")
+	if hr == nil {
+		r.Unk("C09.B7", "kmipserver.BatchExecutor.handleRequest/whole-rejections", token.NoPos, "anchor missing")
+		return
+	}
+	var reads func(v ssa.Value, name string, d int) bool
+	reads = func(v ssa.Value, name string, d int) bool {
+		if d > 6 {
+			return false
+		}
+		switch x := v.(type) {
+		case *ssa.UnOp:
+			if x.Op == token.MUL {
+				if _, fld, ok := fieldAddrOf(x.X); ok && fname(fld) == name {
+					return true
+				}
+			}
+			return reads(x.X, name, d+1)
+		case *ssa.BinOp:
+			return reads(x.X, name, d+1) || reads(x.Y, name, d+1)
+		case *ssa.Convert:
+			return reads(x.X, name, d+1)
+		case *ssa.Phi:
+			for _, e := range x.Edges {
+				if reads(e, name, d+1) {
+					return true
+				}
+			}
+		case *ssa.Call:
+			for _, a := range x.Call.Args {
+				if reads(a, name, d+1) {
+					return true
+				}
+			}
+		}
+		return false
+	}
+	n := 0
+	for _, b := range hr.Blocks {
+		ret, ok := b.Instrs[len(b.Instrs)-1].(*ssa.Return)
+		if !ok || len(ret.Results) != 2 || isNilConst(ret.Results[1]) {
+			continue
+		}
+		// an error return: a constructed error (not a phi of nil)
+		if _, isCall := ret.Results[1].(*ssa.Call); !isCall {
+			if _, isMI := ret.Results[1].(*ssa.MakeInterface); !isMI {
+				continue
+			}
+		}
+		n++
+		key := fmt.Sprintf("kmipserver.BatchExecutor.handleRequest/whole-rejection#%d", n)
+		why := ""
+		for i, dc := range dominatingConds(b) {
+			if i > 0 {
+				break // the test that immediately controls the return decides; earlier ones are the passing edges of the other checks
+			}
+			switch {
+			case reads(dc.cond, "supportedVersions", 0) || reads(dc.cond, "ProtocolVersion", 0):
+				why = "unsupported protocol version"
+			case reads(dc.cond, "BatchErrorContinuationOption", 0):
+				why = "Undo option"
+			case reads(dc.cond, "BatchCount", 0):
+				why = "batch-count mismatch"
+			}
+			if c, ok := dc.cond.(*ssa.Call); ok && why == "" {
+				id := callID(&c.Call)
+				if id.is(srvPath, "", "isDiscoveryOnly") {
+					why = "unsupported protocol version"
+				}
+			}
+		}
+		if why != "" {
+			r.OK("C09.B7", key, ret.Pos(), "whole-request rejection for: %s", why)
+		} else {
+			r.Bad("C09.B7", key, ret.Pos(), "handleRequest rejects the whole request for a reason other than an unsupported version, the Undo option or a batch-count mismatch: the client gets a single failed item and no handler runs although every item of a legal batch must be executed and answered individually")
+		}
+	}
+	if n == 0 {
+		r.Unk("C09.B7", "kmipserver.BatchExecutor.handleRequest/whole-rejections", hr.Pos(), "no whole-request rejection found")
 	}
 }
